@@ -17,7 +17,7 @@ from .ports_common import Device, Horizon, install_seams, make_doubles
 PROP = 'C11'
 H = 4        # idle sleeps tolerated inside one blocking call before cutting
 
-KINDS = ('in-direct', 'in-parser', 'in-selfclosing', 'in-selfclosing-direct',
+KINDS = ('multi-from-iterator', 'in-direct', 'in-parser', 'in-selfclosing', 'in-selfclosing-direct',
          'out', 'out-autoreset', 'io-autoreset', 'io-selfclosing', 'echo',
          'ioport', 'ioport-selfclosing', 'multi', 'multi-selfclosing')
 
@@ -96,10 +96,14 @@ def build_port(mido, kind):
             s.autoreset_dev = 1
         else:
             s.selfclosing = {0}
-    elif kind in ('multi', 'multi-selfclosing'):
-        acls = D.IODouble if kind == 'multi' else D.IOSelfClosing
+    elif kind in ('multi', 'multi-selfclosing', 'multi-from-iterator'):
+        acls = D.IOSelfClosing if kind == 'multi-selfclosing' else D.IODouble
         s.children = [acls('a', dev=dev('a')), D.IODouble('b', dev=dev('b'))]
-        s.port = mido.ports.MultiPort(s.children)
+        if kind == 'multi-from-iterator':
+            # any iterable of ports is accepted, a one-shot one too
+            s.port = mido.ports.MultiPort(p for p in s.children)
+        else:
+            s.port = mido.ports.MultiPort(s.children)
         if kind == 'multi-selfclosing':
             s.selfclosing = {0}
     if not hasattr(s, 'in_srcs'):
